@@ -23,7 +23,8 @@ func c02EnumSchema(es []aEnum) *schema.Schema {
 	for _, e := range es {
 		en := &schema.EnumType{T: fmt.Sprintf("e%d", e.Name), Schema: s}
 		for _, v := range e.Values {
-			en.Values = append(en.Values, fmt.Sprintf("v%d", v))
+			// (the fourth value differs from the first only in letter case: enum labels are case sensitive)
+			en.Values = append(en.Values, map[int]string{4: "V1"}[v]+map[bool]string{true: fmt.Sprintf("v%d", v)}[v != 4])
 		}
 		s.AddObjects(en)
 		t.AddColumns(
